@@ -4,6 +4,7 @@ CONSTANTS
   NSamp = 3
   EmitReplay = TRUE
   Lowers = {FALSE, TRUE}
+  KK = 7
   Ancs = {1, 2}
 INVARIANTS Positioned
 CHECK_DEADLOCK FALSE
